@@ -5,6 +5,7 @@ import (
 	"encoding/json"
 	"errors"
 	"fmt"
+	"math"
 	"os"
 	"regexp"
 	"runtime"
@@ -241,7 +242,11 @@ func runC06A(r *R) {
 	case 5:
 		plan.Delay = time.Duration(1+f.Draw(50)) * time.Millisecond
 	}
-	r.Sample(map[string]any{"level": "A", "aggregator": sp.conf(), "reporters": nrep, "reports": counts, "arbitrary_cancel": arbitraryCancel, "disk_fault": fmt.Sprintf("%+v", plan), "stalls": stalls})
+	// a sample the encoder cannot write (a NaN among its numbers), as the last report of reporter 0 and only without a
+	// disk fault: whatever the aggregator makes of it, the output holds whole, valid lines of reported samples only
+	encFault := sp.Kind == "jsonlines" && !faulty && plan.Delay == 0 && f.Draw(8) == 0
+	encFired := false
+	r.Sample(map[string]any{"level": "A", "aggregator": sp.conf(), "reporters": nrep, "reports": counts, "arbitrary_cancel": arbitraryCancel, "disk_fault": fmt.Sprintf("%+v", plan), "stalls": stalls, "unencodable_last_sample": encFault})
 
 	var (
 		reports  []*c06Report
@@ -295,6 +300,12 @@ func runC06A(r *R) {
 					}
 					tag := fmt.Sprintf("r%d_%d", ri, k)
 					s, line, ts := makeSample(sp.Kind, tag, h)
+					if encFault && ri == 0 && k == counts[0]-1 {
+						if js, ok := s.(*jsonSample); ok {
+							js.F = math.NaN()
+							encFired = true
+						}
+					}
 					rep := &c06Report{Tag: tag, Line: line, Created: ts}
 					reports = append(reports, rep)
 					inFlight++
@@ -376,6 +387,13 @@ func runC06A(r *R) {
 	}
 	if opened > 0 && closed != opened {
 		r.Fail("output/not-closed/"+sp.Kind, "the result file was opened %d times and closed %d times when Run returned", opened, closed)
+	}
+	if encFired {
+		// (how many of the other samples reach the file after the encoder has failed is not judged: the lines that are
+		// there are whole, valid and of reported samples, each once - checked above)
+		r.Note("A/unencodable-sample-reported")
+		r.Fault("sample:unencodable", true)
+		return
 	}
 	if diskFaultFired {
 		// under an injected disk error: never garbage (checked above), and the failure is reported: samples that
